@@ -114,7 +114,8 @@ mutual
         let lt ← Rd.readByte
         if lt.toNat > 12 then Rd.fail else do
         let n ← readInt32
-        if n.msb then Rd.fail else do
+        if n.msb then Rd.fail else
+        if lt = 0#8 ∧ n.toNat > 0 then Rd.fail else do   -- a non-empty list of End: ErrEND before allocating
         let xs ← anyListLoop fuel lt n.toNat           -- make([]any, n), then element by element
         pure (.list xs)
       | 10 => do
